@@ -179,6 +179,8 @@ pub struct StructInfo {
     pub ser: SerFn,
     pub de: Option<DeFn>,
     pub is_empty: Option<EmptyFn>,
+    /// the generated `deserialize` WITHOUT the preceding `type_check`
+    pub de_raw: Option<DeFn>,
 }
 
 pub fn udt_type(db: &[Col]) -> ColumnType<'static> {
@@ -247,6 +249,32 @@ where
     Ok(out)
 }
 
+pub fn de_value_raw<T>(db: &[Col], bytes: Option<&[u8]>) -> Result<Vec<Leaf>, DeErr>
+where
+    T: Leafy + for<'f, 'm> DeserializeValueTrait<'f, 'm>,
+{
+    let typ = udt_type(db);
+    let frame = Bytes::copy_from_slice(bytes.unwrap_or(&[]));
+    let slice = bytes.map(|_| FrameSlice::new(&frame));
+    let v = <T as DeserializeValueTrait>::deserialize(&typ, slice).map_err(DeErr::Deser)?;
+    let mut out = Vec::new();
+    v.dump(&mut out);
+    Ok(out)
+}
+
+pub fn de_row_raw<T>(db: &[Col], bytes: Option<&[u8]>) -> Result<Vec<Leaf>, DeErr>
+where
+    T: Leafy + for<'f, 'm> DeserializeRowTrait<'f, 'm>,
+{
+    let specs = col_specs(db);
+    let frame = Bytes::copy_from_slice(bytes.expect("a row is never null"));
+    let v = <T as DeserializeRowTrait>::deserialize(ColumnIterator::new(&specs, FrameSlice::new(&frame)))
+        .map_err(DeErr::Deser)?;
+    let mut out = Vec::new();
+    v.dump(&mut out);
+    Ok(out)
+}
+
 pub fn de_row<T>(db: &[Col], bytes: Option<&[u8]>) -> Result<Vec<Leaf>, DeErr>
 where
     T: Leafy + for<'f, 'm> DeserializeRowTrait<'f, 'm>,
@@ -304,10 +332,10 @@ macro_rules! def_struct {
 }
 
 macro_rules! fns {
-    (value $name:ident) => { (ser_value::<$name> as SerFn, Some(de_value::<$name> as DeFn), None::<EmptyFn>) };
-    (svalue $name:ident) => { (ser_value::<$name> as SerFn, None, None::<EmptyFn>) };
-    (row $name:ident) => { (ser_row::<$name> as SerFn, Some(de_row::<$name> as DeFn), Some(row_is_empty::<$name> as EmptyFn)) };
-    (srow $name:ident) => { (ser_row::<$name> as SerFn, None, Some(row_is_empty::<$name> as EmptyFn)) };
+    (value $name:ident) => { (ser_value::<$name> as SerFn, Some(de_value::<$name> as DeFn), None::<EmptyFn>, Some(de_value_raw::<$name> as DeFn)) };
+    (svalue $name:ident) => { (ser_value::<$name> as SerFn, None, None::<EmptyFn>, None::<DeFn>) };
+    (row $name:ident) => { (ser_row::<$name> as SerFn, Some(de_row::<$name> as DeFn), Some(row_is_empty::<$name> as EmptyFn), Some(de_row_raw::<$name> as DeFn)) };
+    (srow $name:ident) => { (ser_row::<$name> as SerFn, None, Some(row_is_empty::<$name> as EmptyFn), None::<DeFn>) };
 }
 
 macro_rules! family {
@@ -315,7 +343,7 @@ macro_rules! family {
         $( def_struct!($kind $name ( $($sattr)* ) { $( $f : $t [ $($fattr)* ] ),* }); )*
         pub fn table() -> Vec<StructInfo> {
             vec![ $( {
-                let (ser, de, is_empty) = fns!($kind $name);
+                let (ser, de, is_empty, de_raw) = fns!($kind $name);
                 StructInfo {
                     name: stringify!($name),
                     kind: stringify!($kind),
@@ -324,6 +352,7 @@ macro_rules! family {
                     ser,
                     de,
                     is_empty,
+                    de_raw,
                 }
             } ),* ]
         }
